@@ -430,17 +430,19 @@ Section Confinement.
     destruct (is_dot nn || is_dotdot nn); [apply (Hno _ H)|].
     destruct odead; [apply (Hno _ H)|].
     destruct (NAME_MAX <? len on); [apply (Hno _ H)|].
-    destruct (if odead then None else ent_find on oents) as [src|] eqn:Hsrcf; [|apply (Hno _ H)].
+    cbv iota in H.
+    destruct (ent_find on oents) as [src|] eqn:Hsrcf; [|apply (Hno _ H)].
     assert (Hsrc : inE src).
-    { destruct odead; [discriminate|]. destruct (ent_find_In on oents src Hsrcf) as [m Hm].
+    { destruct (ent_find_In on oents src Hsrcf) as [m Hm].
       apply (closed_children od odv m src Hcod). unfold ents_of. rewrite Hko. exact Hm. }
     destruct ndead; [apply (Hno _ H)|].
     destruct (NAME_MAX <? len nn); [apply (Hno _ H)|].
     destruct (get h src) as [sv|] eqn:Hgs; [|apply (Hno _ H)].
     cbv zeta in H.
-    destruct (if ndead then None else ent_find nn nents) as [t|] eqn:Htgt.
+    cbv iota in H.
+    destruct (ent_find nn nents) as [t|] eqn:Htgt.
     - assert (Ht : inE t).
-      { destruct ndead; [discriminate|]. destruct (ent_find_In nn nents t Htgt) as [m' Hm'].
+      { destruct (ent_find_In nn nents t Htgt) as [m' Hm'].
         apply (closed_children nd ndv m' t Hcnd). unfold ents_of. rewrite Hkn. exact Hm'. }
       destruct (has flags RENAME_NOREPLACE); [apply (Hno _ H)|].
       destruct (_ && ancestor_or_self _ h src nd); [apply (Hno _ H)|].
@@ -467,7 +469,7 @@ Section Confinement.
         apply conf_upd; [exact H3 | exact Ht | intros x Hx; apply closed_kill_dir; exact Hx].
     - destruct (has flags RENAME_EXCHANGE); [apply (Hno _ H)|].
       destruct (_ && ancestor_or_self _ h src nd); [apply (Hno _ H)|].
-      destruct ndead; [apply (Hno _ H)|].
+      cbv iota in H.
       destruct (negb (may c odv MAY_W) || negb (may c ndv MAY_W)); [apply (Hno _ H)|].
       inversion H; subst r h'.
       apply conf_upd; [|exact Hsrc | intros x Hx; apply closed_set_parent; assumption].
